@@ -43,6 +43,7 @@ var props = map[string]*prop{
 		level: "exploration", exhaustive: false,
 		jobs: []job{
 			regress,
+			{name: "after-validation", run: "^TestC01_AfterValidation$"},
 			{name: "concurrent", run: "^TestC01_Concurrent$", weight: 8},
 			{name: "table", run: "^TestC01_Table$"},
 			{name: "random", run: "^TestC01_Random$", shards: [2]int{2, 16}, checks: [2]int{15000, 400000}},
@@ -63,6 +64,7 @@ var props = map[string]*prop{
 		level: "exploration",
 		jobs: []job{
 			regress,
+			{name: "concurrent", run: "^TestC03_Concurrent$", weight: 8},
 			{name: "scan", run: "^TestC03_Scan$", shards: [2]int{4, 16}, checks: [2]int{40, 250}},
 			{name: "mutated", run: "^TestC03_Mutated$", shards: [2]int{4, 16}, checks: [2]int{8000, 120000}},
 			{name: "fuzz-seeds", run: "^FuzzC03$"},
@@ -120,6 +122,7 @@ var props = map[string]*prop{
 		level: "exploration",
 		jobs: []job{
 			regress,
+			{name: "concurrent", run: "^TestC10_Concurrent$", weight: 8},
 			{name: "sweep", run: "^TestC10_WordSweep$", shards: [2]int{2, 10}},
 			{name: "respell", run: "^TestC10_Respell$", shards: [2]int{4, 16}, checks: [2]int{4000, 100000}},
 		},
@@ -129,6 +132,7 @@ var props = map[string]*prop{
 		level: "exploration",
 		jobs: []job{
 			regress,
+			{name: "concurrent", run: "^TestC11_Concurrent$", weight: 8},
 			{name: "sweep", run: "^TestC11_WordSweep$", shards: [2]int{12, 16}},
 			{name: "respell", run: "^TestC11_Respell$", shards: [2]int{4, 16}, checks: [2]int{150, 3000}},
 		},
